@@ -90,3 +90,14 @@ PROPS["C03"] = dict(
         dict(test="^Test(Regress_C03|C03_Concurrent)$", quick=dict(checks=60, timeout=900), thorough=dict(checks=250, shards=12, timeout=3000)),
     ],
 )
+
+PROPS["C02"] = dict(
+    pkg="c02", level="exploration",
+    technique="rapid-generated tag sets and logger tag lists (with injected conflict faults) checked against an independent longest-prefix matcher, each configuration refreshed three times",
+    level_text="Exploration: tag registrations accumulate over a dense prefix-sharing universe; for each generated configuration every registered tag is logged once and must arrive at exactly the logger an independent longest-prefix matcher predicts (literal, longest wildcard, configured root or built-in console), identically over three Refresh/Destroy rounds; configurations with one injected fault must make Refresh return an error.",
+    level_note="Trusted: the harness's matcher (string-prefix based, no code shared with findLoggerForTag) and recording appenders. Wildcards with inner '*' and the empty-stem wildcard '_*' are not generated as clean inputs (the property does not pin them down).",
+    rule="generated tag universe subsets x logger tag lists x injected faults",
+    steps=[
+        dict(test="^Test(Regress_C02|C02_Routing)$", quick=dict(checks=1500, timeout=900), thorough=dict(checks=8000, shards=12, timeout=3000)),
+    ],
+)
